@@ -594,22 +594,22 @@ Qed.
 
 (* ---------- witnesses of the recorded findings, evaluated inside Coq ---------- *)
 
-Definition plain_ep (v : verb) (p : path) : endpoint := mke [mkr v [p]] [] [] [] false false None [204] [] [].
+Definition plain_ep (v : verb) (p : path) : endpoint := mke [mkr v false [p]] [] [] [] false false None [204] [] [].
 
 (* a CONNECT route next to a GET route *)
-Definition w_connect : design := mkd [mks [plain_ep CONNECT [Lit 1]; plain_ep GET [Lit 2]] []] [].
+Definition w_connect : design := mkd [mks [plain_ep CONNECT [Lit 1]; plain_ep GET [Lit 2]] []] [] [].
 (* a TRACE route *)
-Definition w_trace : design := mkd [mks [plain_ep TRACE [Lit 1]; plain_ep GET [Lit 2]] []] [].
+Definition w_trace : design := mkd [mks [plain_ep TRACE [Lit 1]; plain_ep GET [Lit 2]] []] [] [].
 (* Files("/1/{*2}", ...) *)
-Definition w_dir : design := mkd [mks [plain_ep GET [Lit 3]] [mkf [[Lit 1; Star 2]]]] [].
+Definition w_dir : design := mkd [mks [plain_ep GET [Lit 3]] [mkf [[Lit 1; Star 2]]]] [] [].
 (* a header that is required and has a default *)
 Definition w_reqdef : design :=
-  mkd [mks [mke [mkr GET [[Lit 1]]] [] [mkm 2 3 true true false] [] false false None [200] [] []] []] [].
+  mkd [mks [mke [mkr GET false [[Lit 1]]] [] [mkm 2 3 true true false] [] false false None [200] [] []] []] [] [].
 (* a cookie *)
 Definition w_cookie : design :=
-  mkd [mks [mke [mkr GET [[Lit 1]]] [] [] [mkm 2 3 true false false] false false None [200] [] []] []] [].
+  mkd [mks [mke [mkr GET false [[Lit 1]]] [] [] [mkm 2 3 true false false] false false None [200] [] []] []] [] [].
 (* API level requirement and a single-file server *)
-Definition w_filesec : design := mkd [mks [plain_ep GET [Lit 3]] [mkf [[Lit 1]]]] [[5]].
+Definition w_filesec : design := mkd [mks [plain_ep GET [Lit 3]] [mkf [[Lit 1]]]] [[5]] [].
 
 Ltac not_in := let H := fresh in intro H; vm_compute in H; intuition discriminate.
 
@@ -683,12 +683,12 @@ Qed.
 (* non-vacuity: a design inside every hypothesis, with path, query, header and cookie
    parameters, a wildcard route, two routes on one endpoint, a file server *)
 Definition good : design :=
-  mkd [mks [mke [mkr PUT [[Lit 1; Var 10; Star 11]]; mkr PATCH [[Lit 2; Var 11; Var 10]]]
+  mkd [mks [mke [mkr PUT false [[Lit 1; Var 10; Star 11]]; mkr PATCH false [[Lit 2; Var 11; Var 10]]]
                 [mkm 10 10 true false false; mkm 11 11 true false false; mkm 12 20 false true false]
                 [mkm 13 21 true false false; mkm 14 22 true false true] [mkm 15 23 false true false]
                 true false None [200; 202] [404] [[30]; [31; 32]];
             plain_ep TRACE [Lit 3]]
-           [mkf [[Lit 4; Lit 5]]]] [].
+           [mkf [[Lit 4; Lit 5]]]] [] [].
 
 Lemma good_hyps : no_wild_files good /\ ~ uses good CONNECT /\ all_uniform good /\ all_nodef good /\ all_multipart_body good /\
                   NoDup (map nkey (server_ops good)).
@@ -706,8 +706,8 @@ Qed.
 
 (* ---------- openapi:generate=false: mounted = visible + hidden ---------- *)
 
-Lemma in_sel_assigns keep ms r a :
-  In a (server_assigns (mkd (map (sel_service keep) ms) r)) <->
+Lemma in_sel_assigns keep ms r b a :
+  In a (server_assigns (mkd (map (sel_service keep) ms) r b)) <->
   exists s, In s ms /\
     ((exists e, In e (ms_eps s) /\ keep (ms_gen s) (me_gen e) = true /\ In a (ep_srv (me_ep e))) \/
      (exists f p, In f (ms_files s) /\ keep (ms_gen s) (mf_gen f) = true /\ In p (fpaths (mf_fs f)) /\ In a (fs_srv p))).
@@ -797,7 +797,7 @@ Qed.
 
 (* witness: two endpoints, the second marked; it is mounted and in neither document *)
 Definition w_marked : mdesign :=
-  mkmd [mkms [mkme (plain_ep GET [Lit 1]) true; mkme (plain_ep POST [Lit 2]) false] [] true] [].
+  mkmd [mkms [mkme (plain_ep GET [Lit 1]) true; mkme (plain_ep POST [Lit 2]) false] [] true] [] [].
 
 Lemma marked_example :
   In (POST, [Lit 2]) (map nkey (server_ops (mounted w_marked))) /\
@@ -805,3 +805,108 @@ Lemma marked_example :
   In (POST, [Lit 2]) (map nkey (server_ops (hidden w_marked))) /\
   In (GET, [Lit 1]) (map okey (doc3_ops (visible w_marked))).
 Proof. split; [vm_compute; auto | split; [not_in | split; [not_in | split; vm_compute; auto]]]. Qed.
+
+(* ---------- OpenAPI 2: basePath + key resolves to the mounted path ---------- *)
+
+Lemma prefix_recombine bp : forall k, is_prefix bp k = true -> (bp ++ skipn (length bp) k)%list = k.
+Proof.
+  induction bp as [|b bp IH]; intros k H; simpl; [reflexivity|].
+  destruct k as [|x k]; simpl in H; [discriminate|]. apply andb_true_iff in H. destruct H as [E H].
+  apply seg_eqb_spec in E. subst. simpl. rewrite (IH _ H). reflexivity.
+Qed.
+
+Lemma v2_resolve_key bp k : trivial_base bp = true \/ is_prefix bp k = true -> v2_resolve bp (v2_key bp k) = k.
+Proof.
+  unfold v2_resolve, v2_key. destruct (trivial_base bp) eqn:T; [reflexivity|].
+  intros [H|H]; [discriminate|]. rewrite H. apply prefix_recombine. assumption.
+Qed.
+
+Lemma norm_seg_eqb a b : seg_eqb a b = true -> seg_eqb (norm_seg a) (norm_seg b) = true.
+Proof. intro H. apply seg_eqb_spec in H. subst. apply seg_eqb_spec. reflexivity. Qed.
+
+Lemma is_prefix_norm a : forall b, is_prefix a b = true -> is_prefix (norm a) (norm b) = true.
+Proof.
+  induction a as [|x a IH]; intros b H; simpl; [reflexivity|]. destruct b as [|y b]; simpl in *; [discriminate|].
+  apply andb_true_iff in H. destruct H as [E H]. rewrite (norm_seg_eqb _ _ E), (IH _ H). reflexivity.
+Qed.
+
+(* every path of a route that is not absolute starts with the API base path (what
+   RouteExpr.FullPaths builds for a service whose own path is relative) *)
+Definition rooted (d : design) :=
+  forall e r p, endpoint_of d e -> In r (routes e) -> rabs r = false -> In p (rpaths r) -> is_prefix (api_base d) p = true.
+
+Lemma has_abs_false d e r : has_abs d = false -> endpoint_of d e -> In r (routes e) -> rabs r = false.
+Proof.
+  unfold has_abs. intros H [s [Hs He]] Hr. destruct (rabs r) eqn:A; [|reflexivity].
+  assert (X : existsb (fun s => existsb (fun e => existsb rabs (routes e)) (endpoints s)) (services d) = true).
+  { apply existsb_exists. exists s. split; [assumption|]. apply existsb_exists. exists e. split; [assumption|].
+    apply existsb_exists. exists r. auto. }
+  congruence.
+Qed.
+
+Lemma has_files_false d f : has_files d = false -> ~ file_of d f.
+Proof.
+  unfold has_files. intros H [s [Hs Hf]].
+  assert (X : existsb (fun s => match svc_files s with [] => false | _ => true end) (services d) = true).
+  { apply existsb_exists. exists s. split; [assumption|]. destruct (svc_files s); [destruct Hf | reflexivity]. }
+  congruence.
+Qed.
+
+Lemma in_ep_entries e v p : In (v, p) (ep_entries e) -> exists r, In r (routes e) /\ rverb r = v /\ In p (rpaths r).
+Proof.
+  unfold ep_entries. rewrite in_flat_map. intros [r [Hr H]]. apply in_map_iff in H. destruct H as [q [E Hq]].
+  inversion E; subst. exists r. auto.
+Qed.
+
+(* for every design: the key written in openapi.json, read against basePath, is the
+   (rewritten) path the server mounts *)
+Lemma doc2_resolve d : rooted d -> forall o, In o (doc2_ops d) ->
+  v2_resolve (norm (v2_base d)) (v2_key (norm (v2_base d)) (opath o)) = opath o.
+Proof.
+  intros R o H. apply v2_resolve_key. unfold v2_base.
+  destruct (has_abs d) eqn:HA; simpl; [left; reflexivity|]. destruct (has_files d) eqn:HF; simpl; [left; reflexivity|].
+  right. apply (doc_ops_origin _ v2_sound) in H. destruct H as [k [v [od [Hin [_ ->]]]]]. simpl.
+  apply in_assigns2 in Hin. destruct Hin as [[e [p [He [H1 [-> _]]]]]|[f [Hf _]]].
+  - destruct (in_ep_entries _ _ _ H1) as [r [Hr [_ Hp]]]. apply is_prefix_norm.
+    apply (R e r p He Hr (has_abs_false d e r HA He Hr) Hp).
+  - destruct (has_files_false d f HF Hf).
+Qed.
+
+(* when the base path is given up every key is written in full *)
+Lemma doc2_full_keys d k : has_abs d || has_files d = true -> v2_key (norm (v2_base d)) k = k.
+Proof. intro H. unfold v2_base. rewrite H. reflexivity. Qed.
+
+(* finding: a service whose own path is absolute ("//abs") under an API base path: its
+   routes are not absolute, the base path is kept, the key is written in full, and the
+   document resolves to a path the server does not mount *)
+Definition w_svcabs : design :=
+  mkd [mks [plain_ep GET [Lit 5; Lit 6]; plain_ep GET [Lit 9; Lit 7]] []] [] [Lit 9].
+
+Lemma svcabs_refuted_l :
+  exists d o, has_abs d = false /\ has_files d = false /\ In o (doc2_ops d) /\ In o (server_ops d) /\
+    v2_resolve (norm (v2_base d)) (v2_key (norm (v2_base d)) (opath o)) <> opath o /\
+    ~ In (overb o, v2_resolve (norm (v2_base d)) (v2_key (norm (v2_base d)) (opath o))) (map nkey (server_ops d)).
+Proof.
+  exists w_svcabs, (mko GET [Lit 5; Lit 6] [] false [204] []).
+  split; [reflexivity|]. split; [reflexivity|]. split; [vm_compute; auto|]. split; [vm_compute; auto|].
+  split; [vm_compute; discriminate | not_in].
+Qed.
+
+(* non-vacuity: a rooted design; the keys are written without the base path *)
+Definition w_based : design :=
+  mkd [mks [plain_ep GET [Lit 9; Lit 7]; plain_ep POST [Lit 9; Lit 8; Star 3]] []] [] [Lit 9].
+
+Lemma based_example :
+  rooted w_based /\ norm (v2_base w_based) = [Lit 9] /\
+  doc2_written w_based (doc2_ops w_based) = [(GET, [Lit 7]); (POST, [Lit 8; Var 3])] /\
+  map (fun vk => v2_resolve [Lit 9] (snd vk)) (doc2_written w_based (doc2_ops w_based)) = map opath (doc2_ops w_based).
+Proof.
+  split; [|vm_compute; auto].
+  intros e r p [s [[<-|[]] [<-|[<-|[]]]]] [<-|[]] _ [<-|[]]; reflexivity.
+Qed.
+
+Lemma doc2_resolved_id d : rooted d -> doc2_resolved d (doc2_ops d) = doc2_ops d.
+Proof.
+  intro R. unfold doc2_resolved. rewrite <- (map_id (doc2_ops d)) at 2. apply map_ext_in. intros o H.
+  rewrite (doc2_resolve d R o H). destruct o; reflexivity.
+Qed.
